@@ -148,7 +148,11 @@ func VerifC17_Jobs() {
 		caller := []sdk.AccAddress{c17Owner, c17Other}[sym.Choice("caller", 2)]
 		var in, inBody []byte
 		if sym.Bool("caller-supplies-payload") {
-			in, inBody = c17Payload(sym.Bytes("caller-payload", 2), sym.Choice("caller-spelling", 4))
+			spelling := 0
+			if r == 0 { // (a second request uses the plain spelling)
+				spelling = sym.Choice("caller-spelling", 4)
+			}
+			in, inBody = c17Payload(sym.Bytes("caller-payload", 2), spelling)
 		}
 		viaContract := sym.Bool("requested-by-contract")
 		before := c17Calls(env)
@@ -164,7 +168,7 @@ func VerifC17_Jobs() {
 			// the transaction may be signed by a fee grantee of the creator (accepted by the
 			// ante decorator); the requester remains the creator
 			meta := c17Meta(caller)
-			if sym.Bool("signed-by-grantee") {
+			if r == 0 && sym.Bool("signed-by-grantee") {
 				other := c17Other
 				if caller.Equals(c17Other) {
 					other = c17Owner
